@@ -125,6 +125,14 @@ def system_io(rec, hub, rng, i):
         sd = fd.StockDrivenDSM(dims=ds, stock=st.stock, lifetime_model=lm, time_letter="t", solver="lapack")
         sd.compute()
         lm.set_prms(mean=mean, std=mean)
+        # converting and stacking stocks builds new objects from existing arrays
+        simple = fd.SimpleFlowDrivenStock(dims=ds, inflow=inflow, time_letter="t")
+        simple.compute()
+        simple.to_stock_type(fd.InflowDrivenDSM, lifetime_model=fd.NormalLifetime)
+        sh = importlib.import_module("flodym.stock_helper")
+        one_d = fd.DimensionSet(dim_list=[tdim])
+        parts = [fd.SimpleFlowDrivenStock(dims=one_d, inflow=fd.StockArray(dims=one_d, values=np.arange(4.0) + k), time_letter="t") for k in range(2)]
+        sh.stock_stack(parts, U["a"])
     except Exception:
         pass
 
